@@ -488,6 +488,7 @@ func TestC17(t *testing.T) {
 		c17Concurrent(t, run, run.Pick(12, 400))
 	}
 	c17Rotation(t, run)
+	run.Complete()
 	if run.Violations() > 0 {
 		t.Errorf("%d violation(s)", run.Violations())
 	}
